@@ -59,3 +59,27 @@ def element_size_uses_running_index(fam):
                 isinstance(f["size"].get("e"), list) and f["size"]["e"][:2] == ["b", "add"] and f["size"]["e"][2][:2] == ["u", "len"]:
             return True
     return False
+
+
+def _expr_fields(e):
+    if isinstance(e, list):
+        if e and e[0] == "f":
+            yield e[1]
+        for x in e[1:]:
+            yield from _expr_fields(x)
+
+
+def early_computed_size_that_can_go_negative(fam):
+    """The root declaration has, among its first four fields, an unwrapped byte string whose size is an expression / callable over
+    a one-byte integer that is signed or is subtracted: one corrupted byte makes the size a small negative number."""
+    root = fam["decls"][fam["root"]]["fields"]
+    ints = {f["name"]: f for f in root if f["t"] == "int" and not any(k in f for k in ("rep", "opt", "move", "lost_move"))}
+    for f in root[:4]:
+        if f["t"] == "data" and f.get("mode") == "dyn" and not any(k in f for k in ("rep", "opt", "move", "lost_move")) \
+                and f["size"]["form"] in ("expr", "lambda"):
+            e = f["size"]["e"]
+            for name in _expr_fields(e):
+                i = ints.get(name)
+                if i and i["n"] == 1 and (i["signed"] or (isinstance(e, list) and e[0] == "b" and e[1] == "sub")):
+                    return True
+    return False
